@@ -19,6 +19,8 @@ Operation codes
   7 resume_from_file(path) then sample()   (skipped if the file cannot be resumed)
   8 with auto_checkpoint(path): sample(smc); fit(); sample(smc)
   9 with auto_checkpoint(path): sample(smc); fit(overwrite=True); sample(smc)
+ 10 sample(smc, path, resume_from=None)   (an explicit "start afresh", also on a resumed instance)
+ 11 resume_from_file(path); fit(); sample(smc, path, resume_from=None)   (skipped if the file cannot be resumed)
 """
 
 import json
@@ -228,7 +230,7 @@ def _region(op, before, resumed, clause):
          under the new proposal."""
     had_flow, had_ckpt = before
     if clause == "C":
-        if resumed and op in (4, 5, 6, 8, 9):
+        if (resumed and op in (4, 5, 6, 8, 9, 10)) or op == 11:
             return "C14-D8d"
         if op == 3 and had_ckpt:
             return "C14-D8c"
@@ -239,7 +241,7 @@ def _region(op, before, resumed, clause):
             return "C14-D8e"
         return None
     if clause == "F":
-        if op == 8 or (op in (3, 4, 5, 6, 7) and had_flow):
+        if op == 8 or (op in (3, 4, 5, 6, 7, 10, 11) and had_flow):
             return "C14-D8a"
         if op == 2 and had_ckpt:
             return "C14-D8b"
@@ -281,6 +283,16 @@ def _apply(a, op):
             a.sample_posterior(n_samples=1, sampler="smc", preconditioning="none")
             a.fit(d, overwrite=True)
             a.sample_posterior(n_samples=1, sampler="smc", preconditioning="none")
+    elif op == 10:
+        a.sample_posterior(n_samples=1, sampler="smc", checkpoint_path=PATH, preconditioning="none", resume_from=None)
+    elif op == 11:
+        try:
+            b = Aspire.resume_from_file(PATH, log_likelihood=_ll, log_prior=_lp)
+        except (ValueError, FileNotFoundError, KeyError):
+            return a
+        b.fit(d)
+        b.sample_posterior(n_samples=1, sampler="smc", checkpoint_path=PATH, preconditioning="none", resume_from=None)
+        return b
     return a
 
 
@@ -309,7 +321,7 @@ def _drive(prog: List[int], exclude_known: bool) -> bool:
 def _run_f0(rest: List[int]) -> bool:
     """
     pre: len(rest) <= 2
-    pre: all(0 <= k <= 9 for k in rest)
+    pre: all(0 <= k <= 11 for k in rest)
     post: _ == True
     """
     return _drive([0] + rest, True)
@@ -318,7 +330,7 @@ def _run_f0(rest: List[int]) -> bool:
 def _run4_f0(rest: List[int]) -> bool:
     """
     pre: len(rest) == 3
-    pre: all(0 <= k <= 9 for k in rest)
+    pre: all(0 <= k <= 11 for k in rest)
     post: _ == True
     """
     return _drive([0] + rest, True)
@@ -327,7 +339,7 @@ def _run4_f0(rest: List[int]) -> bool:
 def _run_f1(rest: List[int]) -> bool:
     """
     pre: len(rest) <= 2
-    pre: all(0 <= k <= 9 for k in rest)
+    pre: all(0 <= k <= 11 for k in rest)
     post: _ == True
     """
     return _drive([1] + rest, True)
@@ -336,7 +348,7 @@ def _run_f1(rest: List[int]) -> bool:
 def _run4_f1(rest: List[int]) -> bool:
     """
     pre: len(rest) == 3
-    pre: all(0 <= k <= 9 for k in rest)
+    pre: all(0 <= k <= 11 for k in rest)
     post: _ == True
     """
     return _drive([1] + rest, True)
@@ -345,7 +357,7 @@ def _run4_f1(rest: List[int]) -> bool:
 def _run_f2(rest: List[int]) -> bool:
     """
     pre: len(rest) <= 2
-    pre: all(0 <= k <= 9 for k in rest)
+    pre: all(0 <= k <= 11 for k in rest)
     post: _ == True
     """
     return _drive([2] + rest, True)
@@ -354,7 +366,7 @@ def _run_f2(rest: List[int]) -> bool:
 def _run4_f2(rest: List[int]) -> bool:
     """
     pre: len(rest) == 3
-    pre: all(0 <= k <= 9 for k in rest)
+    pre: all(0 <= k <= 11 for k in rest)
     post: _ == True
     """
     return _drive([2] + rest, True)
@@ -363,7 +375,7 @@ def _run4_f2(rest: List[int]) -> bool:
 def _run_f3(rest: List[int]) -> bool:
     """
     pre: len(rest) <= 2
-    pre: all(0 <= k <= 9 for k in rest)
+    pre: all(0 <= k <= 11 for k in rest)
     post: _ == True
     """
     return _drive([3] + rest, True)
@@ -372,7 +384,7 @@ def _run_f3(rest: List[int]) -> bool:
 def _run4_f3(rest: List[int]) -> bool:
     """
     pre: len(rest) == 3
-    pre: all(0 <= k <= 9 for k in rest)
+    pre: all(0 <= k <= 11 for k in rest)
     post: _ == True
     """
     return _drive([3] + rest, True)
@@ -381,7 +393,7 @@ def _run4_f3(rest: List[int]) -> bool:
 def _run_f4(rest: List[int]) -> bool:
     """
     pre: len(rest) <= 2
-    pre: all(0 <= k <= 9 for k in rest)
+    pre: all(0 <= k <= 11 for k in rest)
     post: _ == True
     """
     return _drive([4] + rest, True)
@@ -390,7 +402,7 @@ def _run_f4(rest: List[int]) -> bool:
 def _run4_f4(rest: List[int]) -> bool:
     """
     pre: len(rest) == 3
-    pre: all(0 <= k <= 9 for k in rest)
+    pre: all(0 <= k <= 11 for k in rest)
     post: _ == True
     """
     return _drive([4] + rest, True)
@@ -399,7 +411,7 @@ def _run4_f4(rest: List[int]) -> bool:
 def _run_f5(rest: List[int]) -> bool:
     """
     pre: len(rest) <= 2
-    pre: all(0 <= k <= 9 for k in rest)
+    pre: all(0 <= k <= 11 for k in rest)
     post: _ == True
     """
     return _drive([5] + rest, True)
@@ -408,7 +420,7 @@ def _run_f5(rest: List[int]) -> bool:
 def _run4_f5(rest: List[int]) -> bool:
     """
     pre: len(rest) == 3
-    pre: all(0 <= k <= 9 for k in rest)
+    pre: all(0 <= k <= 11 for k in rest)
     post: _ == True
     """
     return _drive([5] + rest, True)
@@ -417,7 +429,7 @@ def _run4_f5(rest: List[int]) -> bool:
 def _run_f6(rest: List[int]) -> bool:
     """
     pre: len(rest) <= 2
-    pre: all(0 <= k <= 9 for k in rest)
+    pre: all(0 <= k <= 11 for k in rest)
     post: _ == True
     """
     return _drive([6] + rest, True)
@@ -426,7 +438,7 @@ def _run_f6(rest: List[int]) -> bool:
 def _run4_f6(rest: List[int]) -> bool:
     """
     pre: len(rest) == 3
-    pre: all(0 <= k <= 9 for k in rest)
+    pre: all(0 <= k <= 11 for k in rest)
     post: _ == True
     """
     return _drive([6] + rest, True)
@@ -435,7 +447,7 @@ def _run4_f6(rest: List[int]) -> bool:
 def _run_f7(rest: List[int]) -> bool:
     """
     pre: len(rest) <= 2
-    pre: all(0 <= k <= 9 for k in rest)
+    pre: all(0 <= k <= 11 for k in rest)
     post: _ == True
     """
     return _drive([7] + rest, True)
@@ -444,7 +456,7 @@ def _run_f7(rest: List[int]) -> bool:
 def _run4_f7(rest: List[int]) -> bool:
     """
     pre: len(rest) == 3
-    pre: all(0 <= k <= 9 for k in rest)
+    pre: all(0 <= k <= 11 for k in rest)
     post: _ == True
     """
     return _drive([7] + rest, True)
@@ -453,7 +465,7 @@ def _run4_f7(rest: List[int]) -> bool:
 def _run_f8(rest: List[int]) -> bool:
     """
     pre: len(rest) <= 2
-    pre: all(0 <= k <= 9 for k in rest)
+    pre: all(0 <= k <= 11 for k in rest)
     post: _ == True
     """
     return _drive([8] + rest, True)
@@ -462,7 +474,7 @@ def _run_f8(rest: List[int]) -> bool:
 def _run4_f8(rest: List[int]) -> bool:
     """
     pre: len(rest) == 3
-    pre: all(0 <= k <= 9 for k in rest)
+    pre: all(0 <= k <= 11 for k in rest)
     post: _ == True
     """
     return _drive([8] + rest, True)
@@ -471,7 +483,7 @@ def _run4_f8(rest: List[int]) -> bool:
 def _run_f9(rest: List[int]) -> bool:
     """
     pre: len(rest) <= 2
-    pre: all(0 <= k <= 9 for k in rest)
+    pre: all(0 <= k <= 11 for k in rest)
     post: _ == True
     """
     return _drive([9] + rest, True)
@@ -480,10 +492,46 @@ def _run_f9(rest: List[int]) -> bool:
 def _run4_f9(rest: List[int]) -> bool:
     """
     pre: len(rest) == 3
-    pre: all(0 <= k <= 9 for k in rest)
+    pre: all(0 <= k <= 11 for k in rest)
     post: _ == True
     """
     return _drive([9] + rest, True)
+
+
+def _run_f10(rest: List[int]) -> bool:
+    """
+    pre: len(rest) <= 2
+    pre: all(0 <= k <= 11 for k in rest)
+    post: _ == True
+    """
+    return _drive([10] + rest, True)
+
+
+def _run4_f10(rest: List[int]) -> bool:
+    """
+    pre: len(rest) == 3
+    pre: all(0 <= k <= 11 for k in rest)
+    post: _ == True
+    """
+    return _drive([10] + rest, True)
+
+
+def _run_f11(rest: List[int]) -> bool:
+    """
+    pre: len(rest) <= 2
+    pre: all(0 <= k <= 11 for k in rest)
+    post: _ == True
+    """
+    return _drive([11] + rest, True)
+
+
+def _run4_f11(rest: List[int]) -> bool:
+    """
+    pre: len(rest) == 3
+    pre: all(0 <= k <= 11 for k in rest)
+    post: _ == True
+    """
+    return _drive([11] + rest, True)
 
 
 def _raw(prog: List[int]) -> bool:
@@ -497,7 +545,7 @@ def _twin(prog: List[int]) -> bool:
     Reachability twin (must be refuted).
 
     pre: len(prog) <= 3
-    pre: all(0 <= k <= 9 for k in prog)
+    pre: all(0 <= k <= 11 for k in prog)
     post: _ == False
     """
     return _drive(prog, True)
